@@ -28,7 +28,7 @@ func (denyDev2) Check(t string) bool { return t != "dev2" }
 type partialACL struct{}
 
 func (partialACL) NewRPCACL(context.Context) (subscribe.RPCACL, error) { return denyDev2{}, nil }
-func (partialACL) Check(string, string) bool                          { return true }
+func (partialACL) Check(string, string) bool                           { return true }
 
 type subResult struct {
 	err error
